@@ -6,7 +6,8 @@
 namespace {
 
 enum WK { W_GUARDED, W_GOPT, W_SHARED, W_SOPT, W_ORDERED };
-enum Prop { P_C01, P_C02, P_C08, P_C15 };
+enum Prop { P_C01, P_C02, P_C08, P_C15, P_C20 };
+struct ScopedInc { int& r; explicit ScopedInc(int& x) : r(x) { ++r; } ~ScopedInc() { --r; } };
 
 template<class M> struct MCaps;
 template<> struct MCaps<vstd::mutex> { static constexpr bool timed = false, shared = false; static constexpr const char* name = "mutex"; };
@@ -41,7 +42,7 @@ struct St {
     std::set<int> kinds_used;
     int fibers_touched = 0;
     bool lbl_try_null = false, lbl_try_ok_after_release = false, lbl_reader_writer_contended = false, lbl_rendezvous = false,
-         lbl_two_readers = false, lbl_release_during_timed = false, lbl_overlap_ops = false;
+         lbl_two_readers = false, lbl_release_during_timed = false, lbl_overlap_ops = false, lbl_fault_caught = false;
     int ops_in_flight = 0;
 };
 St* S = nullptr;
@@ -85,7 +86,12 @@ vh::Outcome run_locks(const vh::Case& c, Prop prop) {
     // supported op kinds for this config / property
     std::vector<int> sup;
     auto add = [&](int k, int weight) { for (int i = 0; i < weight; ++i) sup.push_back(k); };
-    if (prop == P_C15) {
+    if (prop == P_C20) {
+        if (loadstore) { add(O_LOAD, 2); add(O_STORE, 2); add(O_ASSIGN, 2); }
+        if (ordered) { add(O_CAST, 1); add(O_MODIFY, 3); add(O_READ, 2); }
+        if (excl_handle) { add(O_LOCK, 1); add(O_TRY_LOCK, 1); }
+        if (shared_handle) add(O_LOCK_SHARED, 1);
+    } else if (prop == P_C15) {
         if (loadstore) { add(O_LOAD, 3); add(O_STORE, 2); add(O_ASSIGN, 2); if (ordered) { add(O_CAST, 1); add(O_MODIFY, 1); } if (excl_handle) add(O_LOCK, 1); }
     } else {
         if (excl_handle) { add(O_LOCK, 3); add(O_TRY_LOCK, 2); if (timed_excl) { add(O_TRY_LOCK_FOR, 2); add(O_TRY_LOCK_UNTIL, 1); } }
@@ -144,8 +150,9 @@ vh::Outcome run_locks(const vh::Case& c, Prop prop) {
                     uint64_t bit = uint64_t(1) << ((i * 8 + k) % 60);
                     st.has_read[me] = false;
                     if (st.ops_in_flight > 0) st.lbl_overlap_ops = true;
-                    st.ops_in_flight++;
+                    ScopedInc in_flight_guard(st.ops_in_flight);
                     long mops0 = vrt::me().mutex_ops;
+                    try {
                     // ---------------------------------------------------------------- exclusive handle ops
                     if (kind == O_LOCK || kind == O_TRY_LOCK || kind == O_TRY_LOCK_FOR || kind == O_TRY_LOCK_UNTIL) {
                         if constexpr (excl_handle) {
@@ -215,8 +222,8 @@ vh::Outcome run_locks(const vh::Case& c, Prop prop) {
                         if constexpr (ordered) { Tracked v = static_cast<Tracked>(w); (void)v; }
                     } else if (kind == O_MODIFY) {
                         if constexpr (ordered) {
-                            if (op.a & 1) { int rv = w.modify([&](Tracked& t) { uint64_t r = t.read(); vrt::step(); t.set(r | bit); return 7; }); if (rv != 7) vrt::fail("modify-result", "modify did not return the functor's value"); }
-                            else w.modify([&](Tracked& t) { uint64_t r = t.read(); vrt::step(); t.set(r | bit); });
+                            if (op.a & 1) { int rv = w.modify([&](Tracked& t) { vrt::fault_point(vrt::F_FUNCTOR); uint64_t r = t.read(); vrt::step(); t.set(r | bit); vrt::fault_point(vrt::F_FUNCTOR); return 7; }); if (rv != 7) vrt::fail("modify-result", "modify did not return the functor's value"); }
+                            else w.modify([&](Tracked& t) { vrt::fault_point(vrt::F_FUNCTOR); uint64_t r = t.read(); vrt::step(); t.set(r | bit); vrt::fault_point(vrt::F_FUNCTOR); });
                         }
                     }
                     // ---------------------------------------------------------------- shared ops
@@ -224,7 +231,7 @@ vh::Outcome run_locks(const vh::Case& c, Prop prop) {
                         if constexpr (ordered) {
                             st.shared_alive++;   // inside read() no modification may happen; bracket conservatively inside the functor
                             st.shared_alive--;
-                            w.read([&](const Tracked& t) { st.shared_alive++; uint64_t a = t.read(); for (int s = 0; s < (op.b & 3); ++s) vrt::step(); uint64_t b2 = t.read(); st.shared_alive--; if (a != b2) vrt::fail("unstable-read", "value changed inside read()"); });
+                            w.read([&](const Tracked& t) { ScopedInc alive(st.shared_alive); uint64_t a = t.read(); for (int s = 0; s < (op.b & 3); ++s) vrt::step(); vrt::fault_point(vrt::F_FUNCTOR); uint64_t b2 = t.read(); if (a != b2) vrt::fail("unstable-read", "value changed inside read()"); });
                         }
                     } else {
                         if constexpr (shared_handle) {
@@ -281,12 +288,17 @@ vh::Outcome run_locks(const vh::Case& c, Prop prop) {
                         }
                         if (enabled && owns_shared()) vrt::fail("not-released", "lock still held after the shared handle was destroyed");
                     }
+                    } catch (const vrt::InjectedFault&) {
+                        if (prop != P_C20) vrt::fail("escaped-fault", "fault without a plan");
+                        st.lbl_fault_caught = true;
+                        if (vrt::me().held != 0) vrt::fail("lock-leaked-on-throw", std::string(opname[kind]) + ": a mutex is still held after user code threw");
+                    }
                     if (enabled && (kind >= O_LOAD && kind <= O_MODIFY) && core->owner == vrt::self()) vrt::fail("not-released", "mutex still owned after a whole-object operation");
-                    st.ops_in_flight--;
                 }
             });
         }
         vrt::join_all();
+        vrt::disable_faults();
         // no leaked lock: the main fiber can take the lock in both modes
         if (enabled) {
             if (core->owner >= 0 || core->nshared > 0) vrt::fail("leaked-lock", "the mutex is still held after every client finished");
@@ -310,6 +322,7 @@ vh::Outcome run_locks(const vh::Case& c, Prop prop) {
         case P_C02: out.nontrivial = st.fibers_touched >= 2 && (st.lbl_rendezvous || st.lbl_two_readers || (contended && st.kinds_used.size() >= 2)); break;
         case P_C08: out.nontrivial = st.fibers_touched >= 2 && (enabled ? (st.lbl_try_null || st.lbl_release_during_timed) : st.lbl_overlap_ops); break;
         case P_C15: out.nontrivial = st.fibers_touched >= 2 && st.lbl_overlap_ops && contended; break;
+        case P_C20: out.nontrivial = st.lbl_fault_caught && st.fibers_touched >= 2; break;
     }
     out.sig = (uint64_t)wk * 4 + (uint64_t)(c.cfg.empty() ? 0 : c.cfg[0]);
     return out;
@@ -323,14 +336,15 @@ vh::Outcome dispatch(const vh::Case& c, Prop prop) {
     static const std::array<std::array<RunFn, 4>, 5> table = {row<W_GUARDED>(), row<W_GOPT>(), row<W_SHARED>(), row<W_SOPT>(), row<W_ORDERED>()};
     int cfg = c.cfg.empty() ? 0 : c.cfg[0] % 20;
     if (prop == P_C02) { static const int wmap[3] = {W_SHARED, W_SOPT, W_ORDERED}; return table[(size_t)wmap[(cfg / 4) % 3]][(size_t)cfg % 4](c, prop); }
-    if (prop == P_C15) { static const int wmap[3] = {W_GUARDED, W_GOPT, W_ORDERED}; return table[(size_t)wmap[(cfg / 4) % 3]][(size_t)cfg % 4](c, prop); }
+    if (prop == P_C15 || prop == P_C20) { static const int wmap[3] = {W_GUARDED, W_GOPT, W_ORDERED}; return table[(size_t)wmap[(cfg / 4) % 3]][(size_t)cfg % 4](c, prop); }
     return table[(size_t)cfg / 4][(size_t)cfg % 4](c, prop);
 }
 
 vh::GenSpec spec(Prop p, bool thorough) {
     vh::GenSpec g;
     g.nfibers = 4; g.max_ops = thorough ? 6 : 4; g.ncodes = 64; g.amax = 8; g.bmax = 8;
-    g.cfg_max = {p == P_C02 || p == P_C15 ? 12 : 20, 2, 2};
+    g.cfg_max = {p == P_C02 || p == P_C15 || p == P_C20 ? 12 : 20, 2, 2};
+    if (p == P_C20) { g.fault_max = 10; g.fault_mask = vrt::F_FUNCTOR | vrt::F_COPY | vrt::F_ASSIGN; }
     g.sched_len = thorough ? 160 : 112; g.aux_len = 24;
     return g;
 }
@@ -347,5 +361,9 @@ vh::Register r8("C08", spec(P_C08, false), spec(P_C08, true), [](const vh::Case&
 vh::Register r15("C15g", spec(P_C15, false), spec(P_C15, true), [](const vh::Case& c) { return dispatch(c, P_C15); },
                  "generated load/store/operator=/cast/modify mixes on guarded, guarded_opt, ordered_guarded; oracle = every read returns the latest write in execution order and every "
                  "read-modify-write is uninterrupted; non-trivial = operations of >=2 fibers overlapped in time and contended on the mutex");
+
+vh::Register r20("C20g", spec(P_C20, false), spec(P_C20, true), [](const vh::Case& c) { return dispatch(c, P_C20); },
+                 "generated load/store/operator=/cast/modify/read/lock mixes on guarded, guarded_opt, ordered_guarded with a fault plan (k-th functor call / payload copy / assignment throws); after the throw "
+                 "the thread holds no mutex, other threads keep acquiring, the final acquisition succeeds; non-trivial = the fault fired in a program with >=2 fibers");
 
 }  // namespace
